@@ -453,7 +453,13 @@ class Interp:
         # contract?
         c = self.reg.contract_for(func)
         if c is not None and not c.inline:
-            return self.reg.apply_contract(self, c, func, args, kwargs)
+            # a contract stated in ANOTHER sidecar module speaks about arguments of its own shapes only:
+            # for arguments of other shapes it says nothing and the real body is interpreted instead
+            cur = getattr(self.reg, 'current_module', None)
+            policy = getattr(cur, 'foreign_contracts', 'apply')
+            if getattr(c, 'module', None) is cur or policy == 'apply' or \
+                    (policy == 'fit' and self.reg.args_fit_contract(self, c, func, args, kwargs)):
+                return self.reg.apply_contract(self, c, func, args, kwargs)
         m = self.reg.model_for(func)
         if m is not None:
             self.st.used_models.add(_qn(func))
